@@ -45,6 +45,8 @@ import (
 	"encoding/json"
 	"fmt"
 	"os"
+	"runtime"
+	"sort"
 	"strings"
 	"time"
 
@@ -103,11 +105,61 @@ type fsess struct {
 	all    []*fwallet
 	base   map[string][3]int // op -> calls of the fault-free run: db, lookup, fetch
 	fresh  int
+	spare  *fwallet // a fresh sentence whose import has not succeeded yet (used again: fewer needles)
+	dbSig  string   // names, sizes and modification times of the database files when last scanned
+}
+
+// scanDB scans the raw database unless no file of it changed since the last scan (a failed
+// operation that was rolled back writes nothing; the content was scanned when it was written)
+func (s *fsess) scanDB() (int, int) {
+	var sb strings.Builder
+	if fs, err := os.ReadDir(s.dir + "/walletdb"); err == nil {
+		for _, f := range fs {
+			if info, e := f.Info(); e == nil && !f.IsDir() && f.Name() != "LOCK" {
+				fmt.Fprintf(&sb, "%s:%d:%d;", f.Name(), info.Size(), info.ModTime().UnixNano())
+			}
+		}
+	}
+	sig := sb.String()
+	if sig != "" && sig == s.dbSig {
+		stats["flt_scans_skipped_db_unchanged"]++
+		return 0, 0
+	}
+	_, hays, total := s.l.snapshot()
+	s.dbSig = sig
+	return hays, total
+}
+
+// shieldDB keeps faults away from NtfnsHandler.initTaskChan: when its read transaction cannot be
+// begun (or its listing fails) the task queue is never created, the worker goroutine dereferences
+// the nil queue, and the wallet's Recover turns that panic into a fatal log entry that ends the
+// PROCESS (reported as a side finding; nothing to do with secrets). The transaction of that one
+// function is begun on the unwrapped database: not numbered, never failing.
+type shieldDB struct {
+	mwdb.DB
+	raw mwdb.DB
+}
+
+func (d *shieldDB) BeginReadTx() (mwdb.ReadTransaction, error) {
+	pcs := make([]uintptr, 12)
+	n := runtime.Callers(2, pcs)
+	frames := runtime.CallersFrames(pcs[:n])
+	for {
+		f, more := frames.Next()
+		if strings.HasSuffix(f.Function, ".initTaskChan") {
+			stats["flt_shielded_initTaskChan"]++
+			return d.raw.BeginReadTx()
+		}
+		if !more {
+			break
+		}
+	}
+	return d.DB.BeginReadTx()
 }
 
 func (s *fsess) wrap(db mwdb.DB) mwdb.DB {
 	s.raw = db
-	return s.ctl.Wrap(db)
+	return &shieldDB{DB: s.ctl.Wrap(db), raw: db}
 }
 
 func (s *fsess) ks() *keystore.KeystoreManager {
@@ -177,6 +229,12 @@ func (s *fsess) refresh(w *fwallet) bool {
 		w.addrs = append(w.addrs, a)
 		s.addrKey(w, b, i)
 	}
+	sort.Slice(w.addrs, func(x, y int) bool {
+		if w.addrs[x].b != w.addrs[y].b {
+			return w.addrs[x].b < w.addrs[y].b
+		}
+		return w.addrs[x].i < w.addrs[y].i
+	})
 	return true
 }
 
@@ -349,7 +407,7 @@ func (s *fsess) attempt(op string, p plan, bg bool, f func() error) (error, bool
 	if panicked {
 		outcome = "panic"
 	}
-	_, hays, total := s.l.snapshot()
+	hays, total := s.scanDB()
 	fmt.Fprintf(s.out, "FO\t%d\t%d\t%s\t%s\t%d\t%d\t%d\t%s\t%d\t%d\t%d\t%s\t%s\n", s.n, s.l.step, op, p.kind, p.at, p.count, injected,
 		strings.ReplaceAll(firstName, "\t", " "), dbCalls, lookups, fetches, outcome, text)
 	fmt.Fprintf(s.out, "N\t%d\t%d\t%d\t%d\t%d\n", s.n, s.l.step, s.l.sc.count(), hays, total)
@@ -386,8 +444,8 @@ func (s *fsess) plans(op string, perKind int) []plan {
 		}
 		if s.sweep {
 			stepBy := 1
-			if N > 160 {
-				stepBy = (N + 159) / 160
+			if N > 64 {
+				stepBy = (N + 63) / 64
 			}
 			for at := 1 + (s.n % stepBy); at <= N; at += stepBy {
 				out = append(out, plan{kind, at, 1})
@@ -429,9 +487,13 @@ func (s *fsess) plans(op string, perKind int) []plan {
 }
 
 func (s *fsess) pay(w *fwallet, blocks int) error {
+	paid := w.addrs
+	if len(paid) > 3 {
+		paid = paid[:3] // the first addresses have history, the rest of a long list stays unused (gap rule)
+	}
 	for k := 0; k < blocks; k++ {
 		var outs []sim.Out
-		for _, a := range w.addrs {
+		for _, a := range paid {
 			sc, err := txscript.PayToWitnessScriptHashScript(a.sh)
 			if err != nil {
 				return err
@@ -444,7 +506,7 @@ func (s *fsess) pay(w *fwallet, blocks int) error {
 		}
 		s.w.Notify(b)
 		th := b.MsgBlock().Transactions[0].TxHash()
-		for j, a := range w.addrs {
+		for j, a := range paid {
 			a.coins = append(a.coins, wire.OutPoint{Hash: th, Index: uint32(j)})
 		}
 	}
@@ -544,8 +606,17 @@ func (s *fsess) run(op string, p plan) error {
 			}
 			// the rows of the wallet just created were scanned before its secrets were known
 			s.l.step++
-			_, hays, total := s.l.snapshot()
+			s.dbSig = ""
+			hays, total := s.scanDB()
 			fmt.Fprintf(s.out, "N\t%d\t%d\t%d\t%d\t%d\n", s.n, s.l.step, s.l.sc.count(), hays, total)
+			if s.sweep && p.kind != "none" {
+				// many creations succeed in a sweep: keep the database small
+				if e, _ := guard(func() error { return s.w.WM.RemoveWallet(id, pass) }); e != nil {
+					s.l.search("error-of-remove", []byte(e.Error()))
+				}
+				s.waitIdle(20 * time.Second)
+				w.id = ""
+			}
 		}
 	case "impmn", "impmn-hint", "impks":
 		if err := s.importGuest(op, p); err != nil {
@@ -562,19 +633,34 @@ func (s *fsess) run(op string, p plan) error {
 			}
 		}
 	case "impmn-new":
-		w, err := s.freshMnemonic()
-		if err != nil {
-			return err
+		w := s.spare
+		if w == nil {
+			var err error
+			if w, err = s.freshMnemonic(); err != nil {
+				return err
+			}
 		}
+		s.spare = w
 		wp := &keystore.WalletParams{Version: keystore.KeystoreVersionLatest, Mnemonic: w.mnemonic, Remarks: w.remark,
 			PrivatePassphrase: []byte(w.pass), ExternalIndex: uint32(s.r.Intn(2)), InternalIndex: uint32(s.r.Intn(2)), AddressGapLimit: sim.Cur.GapLimit}
 		s.attempt(op, p, true, func() error {
 			sum, e := s.w.WM.ImportWalletWithMnemonic(wp)
 			if e == nil {
 				w.id = sum.WalletID
+				s.spare = nil
 			}
 			return e
 		})
+		if s.sweep && w.id != "" && s.present(w.id) {
+			// a sweep imports the same fresh sentence again and again: remove it after a success
+			if e, _ := guard(func() error { return s.w.WM.RemoveWallet(w.id, w.pass) }); e != nil {
+				s.l.search("error-of-remove", []byte(e.Error()))
+			}
+			s.waitIdle(20 * time.Second)
+			if !s.present(w.id) {
+				w.id, s.spare = "", w
+			}
+		}
 	case "export":
 		var js string
 		err, _ := s.attempt(op, p, false, func() error { var e error; js, e = s.w.WM.ExportWallet(a.id, a.pass); return e })
@@ -753,7 +839,12 @@ func runFaults(seed uint64, n int, sweep bool, out *bufio.Writer) error {
 	if _, err := s.w.WM.UseWallet(a.id); err != nil {
 		return err
 	}
-	for j, na := 0, 1+r.Intn(2); j < na; j++ {
+	na := 1 + r.Intn(2)
+	if n%2 == 1 {
+		// a full window of addresses: from here on NewAddress consults the chain look-up (gap rule)
+		na = int(sim.Cur.GapLimit)
+	}
+	for j := 0; j < na; j++ {
 		if _, err := s.w.WM.NewAddress(0); err != nil {
 			return fmt.Errorf("NewAddress: %v", err)
 		}
